@@ -1084,6 +1084,8 @@ class _NameSanitizer(_NameIndexer):
             identifier_regex_str += '$'
         self.identifier = re.compile(identifier_regex_str)
         self.val_map = {}
+        self._kept = set()  # valid names handed back unchanged
+        self._generated = set()  # names made up for invalid ones
         self.map_valid = map_valid_vals
         self.extra_checks = extra_checks
         self.allow_dups = allow_duplicates
@@ -1100,13 +1102,19 @@ class _NameSanitizer(_NameIndexer):
 
     def make_valid_string(self, string=''):
         """ Inputting a value for the first time. """
-        if not self.is_valid_str(string):
+        # A valid name that equals a name already generated for some other string must be
+        # replaced as well, or the two would be mapped onto one identifier.
+        if not self.is_valid_str(string) or string in self._generated:
             if string in self.val_map and not self.allow_dups:
                 raise IndexError("Value {} has already been given to the sanitizer".format(string))
             internal_name = super(_NameSanitizer, self).make_valid_string()
+            while internal_name in self._kept or internal_name in self._generated:
+                internal_name = super(_NameSanitizer, self).make_valid_string()
+            self._generated.add(internal_name)
             self.val_map[string] = internal_name
             return internal_name
         else:
+            self._kept.add(string)
             if self.map_valid:
                 self.val_map[string] = string
             return string
